@@ -243,6 +243,18 @@ def _flow(ck, p, byk):
                 if s["k"] == "assign" and s["rv"]["k"] == "bin" and s["rv"]["op"].startswith("Sub"):
                     subs.append(s)
         fields_written = sorted({s["lhs"][-1][2] for b in g.blocks for s in b["s"] if s["k"] == "assign" and len(s["lhs"]) > 1 and isinstance(s["lhs"][-1], list) and s["lhs"][-1][0] == "f"})
+        if not subs:
+            # written as a delegation: copy, then pull_by(by) on the copy
+            deleg = [t for _, t in g.calls() if inst_of(t) == "harper_core::span::{impl}::pull_by"]
+            pb = byk.get("Span::pull_by")
+            if len(deleg) == 1 and pb:
+                h = pb[0]
+                hsubs = [s for b in h.blocks for s in b["s"] if s["k"] == "assign" and s["rv"]["k"] == "bin" and s["rv"]["op"].startswith("Sub")]
+                hw = sorted({s["lhs"][-1][2] for b in h.blocks for s in b["s"] if s["k"] == "assign" and len(s["lhs"]) > 1 and isinstance(s["lhs"][-1], list) and s["lhs"][-1][0] == "f"})
+                by_arg = ("arg", 2) in flatten(Prov(g).trace_operand(deleg[0]["args"][1]))
+                ck.decide(rule, "Span::pulled_by", len(hsubs) == 2 and hw == ["end", "start"] and by_arg, g.span, "delegates to pull_by(by) on a copy; pull_by subtracts from start and end (%d subtractions, fields %s)" % (len(hsubs), hw))
+                subs = None
+    if g and subs is not None and not isinstance(g, list):
         ck.decide(rule, "Span::pulled_by", len(subs) == 2 and fields_written == ["end", "start"], g.span, "subtracts `by` from start and end of a copy (%d subtractions, fields written %s)" % (len(subs), fields_written))
     # condense_number_suffixes merges exactly two tokens
     g = byk.get("Document::condense_number_suffixes")
